@@ -1,1 +1,129 @@
-(* placeholder: to be written *)
+(** C10 — Weekly fees: claimers get their energy share once, never more than collected.
+    Statements only; proofs are in Proofs/WeeklyProofs.v.
+
+    Vocabulary (Model/FeesCollector.v, Proofs/WeeklyProofs.v):
+      [ep_claim f c orig boosted = Ok (f', outs, det)]  a successful claimRewards / claimBoostedRewards;
+            [det] is the per-week breakdown [(week, payments)], [outs] what the endpoint returns;
+      [claim_user c orig]       whose progress / energy the claim is about;
+      [energy_at p w]           the recorded entry [p] decayed to week [w]: max 0 (amount - 7*tokens*(w - p.week));
+      [view_total_energy], [view_total_rewards], [view_accumulated], [view_progress], [view_last_global]
+                                the contract's views;
+      [FWf f]                   well-formedness of a collector state (holds for every reachable state: [C10_reach]). *)
+From MX Require Import Base.Prelude Gen.Params Model.Weekly Model.FeesCollector Proofs.WeeklyProofs.
+
+(** every reachable state is well-formed (any deployment epoch, any interleaving, failed transactions revert) *)
+Theorem C10_reach : forall epoch ops, FWf (run (init_fc epoch) ops).
+Proof. intros. apply run_wf. apply init_wf. Qed.
+Print Assumptions C10_reach.
+
+(** Share: for each processed week and reward token the payment is floor(total * energy / total energy)
+    ([floor_of] is the cross-multiplied statement), zero shares are not paid, every positive share is;
+    nothing is paid for a week in which the user's decayed energy or the week's total energy is zero. *)
+Theorem C10_share : forall f c orig boosted f' outs det,
+  FWf f -> ep_claim f c orig boosted = Ok (f', outs, det) ->
+  forall p w r, view_progress f (claim_user c orig) = Some p -> In (w, r) det ->
+    let e := energy_at p w in let E := view_total_energy f w in let tot := view_total_rewards f' w in
+    ((e = 0 \/ E = 0) -> r = []) /\
+    (0 < e -> 0 < E ->
+       (forall t x, In (t, x) r -> exists a, In (t, a) tot /\ floor_of x (a * e) E /\ 0 < x) /\
+       (forall t a, In (t, a) tot -> 0 < a * e / E -> In (t, a * e / E) r)).
+Proof. exact claim_share_char. Qed.
+Print Assumptions C10_share.
+
+(** Window: a claim at week [cw] processes exactly the weeks max(progress.week, cw-4) .. cw-1 (so only
+    the four most recent completed weeks), a user without recorded progress gets nothing, and afterwards the
+    progress is (current energy, cw) — or empty when the current energy is zero; nobody else's changes. *)
+Theorem C10_window : forall f c orig boosted f' outs det,
+  FWf f -> ep_claim f c orig boosted = Ok (f', outs, det) ->
+  exists cw, current_week f = Ok cw /\
+    match view_progress f (claim_user c orig) with
+    | None => det = []
+    | Some p => pr_week p <= cw /\
+                map fst det = zseq (Z.max (pr_week p) (cw - USER_MAX_CLAIM_WEEKS))
+                                   (Z.to_nat (Z.min (cw - pr_week p) USER_MAX_CLAIM_WEEKS))
+    end /\
+    (forall w, In w (map fst det) -> cw - USER_MAX_CLAIM_WEEKS <= w < cw) /\
+    view_progress f' (claim_user c orig) =
+      (if 0 <? en_amount (energy_entry f (claim_user c orig))
+       then Some (mkProg (energy_entry f (claim_user c orig)) cw) else None) /\
+    (forall u, u <> claim_user c orig -> view_progress f' u = view_progress f u).
+Proof. exact claim_window_char. Qed.
+Print Assumptions C10_window.
+
+(** Once: over any history from any deployment, the (user, week) pairs processed by successful claims are
+    pairwise distinct. *)
+Theorem C10_once : forall epoch ops, NoDup (run_log (init_fc epoch) ops).
+Proof. intros. apply run_log_once. apply init_wf. Qed.
+Print Assumptions C10_once.
+
+(** Frozen: no operation changes a week's total rewards once set, as long as the week is claimable. *)
+Theorem C10_frozen : forall f op f' outs det,
+  FWf f -> step f op = Ok (f', outs, det) ->
+  forall w, view_total_rewards f w <> [] -> cur_week f' - USER_MAX_CLAIM_WEEKS <= w ->
+            view_total_rewards f' w = view_total_rewards f w.
+Proof. exact step_rewards_frozen. Qed.
+Print Assumptions C10_frozen.
+
+(** ... it is set by the first claim that reaches the week, to the week's accumulated deposits of the known
+    tokens (positive ones, token order), which are consumed; the week is a completed one; accumulations of
+    the running and later weeks are untouched by claims. *)
+Theorem C10_frozen_first_claim : forall f c orig boosted f' outs det,
+  FWf f -> ep_claim f c orig boosted = Ok (f', outs, det) ->
+  exists cw, current_week f = Ok cw /\
+    (forall w, view_total_rewards f w <> [] -> cw - USER_MAX_CLAIM_WEEKS <= w ->
+               view_total_rewards f' w = view_total_rewards f w) /\
+    (forall w, view_total_rewards f w = [] -> view_total_rewards f' w <> [] ->
+               cw - USER_MAX_CLAIM_WEEKS <= w < cw /\
+               view_total_rewards f' w =
+                 positive_part (map (fun t => (t, view_accumulated (accumulate_additional f cw) w t)) (h_tokens (fc_h f))) /\
+               (forall t, In t (h_tokens (fc_h f)) -> view_accumulated f' w t = 0)) /\
+    (forall w t, cw <= w -> view_accumulated f' w t = view_accumulated f w t).
+Proof. exact ep_claim_frozen. Qed.
+Print Assumptions C10_frozen_first_claim.
+
+Theorem C10_frozen_only_claims_set : forall f op f' outs det,
+  FWf f -> step f op = Ok (f', outs, det) ->
+  forall w, view_total_rewards f w = [] -> view_total_rewards f' w <> [] -> exists c orig b, op = Claim c orig b.
+Proof. exact step_rewards_set_by_claim. Qed.
+Print Assumptions C10_frozen_only_claims_set.
+
+(** ... and a deposit lands in the running week's accumulation of its token only (claimable from the next
+    week on by the previous theorem), changing no weekly state. *)
+Theorem C10_deposit : forall f c tok nonce amt f' outs det,
+  ep_deposit f c tok nonce amt = Ok (f', outs, det) ->
+  exists cw, current_week f = Ok cw /\ fc_w f' = fc_w f /\
+    (forall w t, view_accumulated f' w t =
+                 view_accumulated f w t + (if (w =? cw) && (t =? tok) then amt else 0)) /\
+    (forall t, aget (fc_bal f') t = aget (fc_bal f) t + (if (t =? tok) && (nonce =? 0) then amt else 0)) /\
+    mem c (fc_contracts f) = true /\ mem tok (h_tokens (fc_h f)) = true /\ 0 <= amt /\
+    (0 < nonce -> tok = LOCKED) /\ 0 <= nonce.
+Proof. exact deposit_spec. Qed.
+Print Assumptions C10_deposit.
+
+(** PARTIAL (interim): the arithmetic core of "never more than collected". *)
+Theorem C10_sum_partial : forall tot E t, 0 < E -> Forall (fun p => 0 <= snd p) tot ->
+  forall es, Forall (fun e => 0 <= e) es -> zsum es <= E ->
+  zsum (map (fun e => tok_sum (week_share tot e E) t) es) <= tok_sum tot t.
+Proof. exact shares_sum_le. Qed.
+Print Assumptions C10_sum_partial.
+
+(** Non-vacuity: two users with different locks, deposits of two tokens over two weeks, a user skipping
+    six weeks, claims that pay inexact shares. *)
+Definition c10_example_ops : list fop :=
+  [AddContract OWNER 60; AddToken OWNER 1; AddToken OWNER 2;
+   SetEnergy 1 5000 100; SetEnergy 2 3001 10; Claim 1 None false; Claim 2 None false;
+   Deposit 60 1 0 1000; Deposit 60 2 0 77; Advance 7;
+   Claim 1 None false; Deposit 60 1 0 500; Advance 7; Claim 2 None false; Advance 42; Claim 1 None false].
+Example C10_nonvacuous :
+  let f := run (init_fc 5) (firstn 10 c10_example_ops) in
+  match step f (Claim 1 None false) with
+  | Ok (f1, outs, [(1, r)]) =>
+      outs = [(1, 624); (2, 48)] /\ r = outs /\ view_total_energy f 1 = 8001 /\
+      view_total_rewards f1 1 = [(1, 1000); (2, 77)] /\
+      match step (run f1 [Deposit 60 1 0 500; Advance 7]) (Claim 2 None false) with
+      | Ok (_, outs2, det2) => outs2 = [(1, 375); (2, 28); (1, 202)] /\ map fst det2 = [1; 2]
+      | Err _ => False
+      end
+  | _ => False
+  end /\ run_log (init_fc 5) c10_example_ops = [(1, 1); (2, 1); (2, 2); (1, 5); (1, 6); (1, 7); (1, 8)].
+Proof. vm_compute. repeat split. Qed.
